@@ -131,6 +131,8 @@ func genInstrBytes() *rapid.Generator[[]byte] {
 
 var realInstrs [][]byte // filled by the exactness walk of the own binary (seed material for mutation)
 var realOnce sync.Once
+var realLong [][]byte
+var longOnce sync.Once
 
 func loadReal() {
 	realOnce.Do(func() {
@@ -188,6 +190,109 @@ func TestVerifC16Totality(t *testing.T) {
 		},
 		Run: runBytes}
 	s := p.Main(t, vkit.Scale(400000, 6000000))
+	if !vkit.Replaying() {
+		s.Done()
+	}
+}
+
+// ---- windows: the answer for a byte string does not depend on what was decoded before ----
+
+type windowCase struct {
+	Hex string `json:"hex"`
+}
+
+type decoded struct {
+	len  int
+	op   string
+	rel  [2]int
+	fail bool
+}
+
+func decodeOnce(src []byte) decoded {
+	in, err := x86asm.Decode(src, 64)
+	return decoded{in.Len, in.Op.String(), [2]int{in.PCRelOff, in.PCRel}, err != nil}
+}
+
+// runWindow decodes every proper prefix of a byte string, then the whole string, then every prefix again: each answer must
+// satisfy the totality invariants for the bytes actually supplied and equal the answer given the first time.
+func runWindow(ci interface{}, s *vkit.Stats) error {
+	c := ci.(*windowCase)
+	src, err := hex.DecodeString(c.Hex)
+	if err != nil || len(src) == 0 {
+		return nil
+	}
+	first := make([]decoded, len(src)+1)
+	for pass := 0; pass < 2; pass++ {
+		for cut := 0; cut <= len(src); cut++ {
+			w := src[:cut:cut]
+			if err := totality(w); err != nil {
+				return fmt.Errorf("window of %d bytes of % x (pass %d): %v", cut, src, pass, err)
+			}
+			d := decodeOnce(w)
+			if pass == 0 {
+				first[cut] = d
+			} else if d != first[cut] {
+				return fmt.Errorf("window % x decoded as %+v before and as %+v after its extension % x was decoded", w, first[cut], d, src)
+			}
+		}
+	}
+	full := first[len(src)]
+	if !full.fail {
+		s.Class("window/decodable")
+		if full.len >= 9 {
+			s.Class("window/long-instruction")
+			if src[full.len-1] == 0 && src[full.len-2] == 0 {
+				s.Class("window/long-zero-tail")
+			}
+		}
+		s.NonTrivial(fmt.Sprintf("%x", src[:full.len]))
+	}
+	return nil
+}
+
+func TestVerifC16Windows(t *testing.T) {
+	loadReal()
+	p := &vkit.Prop{ID: "C16", Unit: "windows",
+		New: func() interface{} { return &windowCase{} },
+		Gen: func(rt *rapid.T) interface{} {
+			var b []byte
+			if len(realInstrs) == 0 || rapid.IntRange(0, 4).Draw(rt, "kind") == 0 {
+				b = genInstrBytes().Draw(rt, "structured")
+			} else {
+				src := realInstrs[rapid.IntRange(0, len(realInstrs)-1).Draw(rt, "real")]
+				if rapid.Bool().Draw(rt, "long") {
+					// prefer long encodings (immediates / displacements at the end)
+					var long [][]byte
+					longOnce.Do(func() {
+						for _, r := range realInstrs {
+							if len(r) >= 9 {
+								realLong = append(realLong, r)
+							}
+						}
+					})
+					if long = realLong; len(long) > 0 {
+						src = long[rapid.IntRange(0, len(long)-1).Draw(rt, "real-long")]
+					}
+				}
+				b = append([]byte(nil), src...)
+				switch rapid.IntRange(0, 3).Draw(rt, "tailmut") {
+				case 0: // zero the trailing operand bytes
+					for i := len(b) - rapid.IntRange(1, 4).Draw(rt, "nzero"); i < len(b); i++ {
+						if i > 0 {
+							b[i] = 0
+						}
+					}
+				case 1:
+					b[len(b)-1] = rapid.Byte().Draw(rt, "last")
+				}
+				if rapid.Bool().Draw(rt, "tail") {
+					b = append(b, rapid.SliceOfN(rapid.Byte(), 0, 16-len(b)).Draw(rt, "tailbytes")...)
+				}
+			}
+			return &windowCase{Hex: hex.EncodeToString(b)}
+		},
+		Run: runWindow}
+	s := p.Main(t, vkit.Scale(60000, 1000000))
 	if !vkit.Replaying() {
 		s.Done()
 	}
